@@ -14,6 +14,7 @@ import (
 	"strconv"
 	"strings"
 	"sync"
+	"syscall"
 	"time"
 
 	"github.com/go-logr/stdr"
@@ -49,7 +50,11 @@ type safeSink struct {
 	closed  bool
 	delay   time.Duration // slow writer (asynchronous logger, fake clock)
 	afterCl int
+	refuse  func(p []byte) bool // injected I/O fault: such a write fails without effect
+	refused int
 }
+
+var errSinkIO = &os.PathError{Op: "write", Path: "sink", Err: syscall.ENOSPC}
 
 func (s *safeSink) Write(p []byte) (int, error) {
 	if s.delay > 0 {
@@ -57,6 +62,10 @@ func (s *safeSink) Write(p []byte) (int, error) {
 	}
 	s.mu.Lock()
 	defer s.mu.Unlock()
+	if s.refuse != nil && s.refuse(p) {
+		s.refused++
+		return 0, errSinkIO
+	}
 	if s.closed {
 		s.afterCl++
 	}
@@ -94,8 +103,13 @@ type c13Logger struct {
 	dropsLog bool                     // Log() is dropped by design (quiet)
 	dropsAll bool                     // noop
 	members  []*logs.StringLoggers
-	cleanup  func()
-	dropped  func() int // reported dropped (async)
+	// other is a second composite built from the same argument slice; otherPrivate are members appended to it only
+	other        logs.IMultipleLoggers
+	otherPrivate []*logs.StringLoggers
+	cleanup      func()
+	dropped      func() int // reported dropped (async)
+	faultyMember int        // multiple-writers: index of the member that refuses some writes (-1 none)
+	refusals     func() int
 }
 
 var stdSwap sync.Mutex
@@ -214,7 +228,7 @@ func c13NewLogger(kind int, scratch string, ch *Chooser) (*c13Logger, error) {
 	case 12, 13:
 		n := 1 + ch.Intn("members", 4)
 		var members []*logs.StringLoggers
-		var list []logs.Loggers
+		list := make([]logs.Loggers, 0, n+4) // spare capacity: the composite must not keep this backing array
 		for i := 0; i < n; i++ {
 			sl, err := logs.NewPlainStringLogger()
 			if err != nil {
@@ -236,12 +250,67 @@ func c13NewLogger(kind int, scratch string, ch *Chooser) (*c13Logger, error) {
 			return nil, err
 		}
 		c := &c13Logger{name: name, lg: ml, multi: ml, members: members}
+		// a second composite built from the very same argument slice, with a member of its own appended:
+		// nothing logged through the first composite may end up in that private member
+		var other logs.IMultipleLoggers
+		if kind == 12 {
+			other, err = logs.NewMultipleLoggers(src, list...)
+		} else {
+			other, err = logs.NewCombinedLoggers(list...)
+		}
+		if err != nil {
+			return nil, err
+		}
+		c.other = other
 		c.content = func() map[string]string {
 			out := map[string]string{}
 			for i, m := range c.members {
 				out[fmt.Sprintf("member%d", i)] = m.GetLogContent()
 			}
 			return out
+		}
+		return c, nil
+	case 15:
+		// a logger over the composite writer; one member may be a device that refuses some writes (I/O fault):
+		// the healthy members must still receive every message
+		n := 2 + ch.Intn("wmembers", 3)
+		faulty := ch.Intn("faultymember", n+1) - 1 // -1: none
+		sinks := make([]*safeSink, n)
+		ws := make([]logs.WriterWithSource, n)
+		for i := range sinks {
+			sinks[i] = &safeSink{}
+			ws[i] = sinks[i]
+		}
+		if faulty >= 0 {
+			sinks[faulty].refuse = func(p []byte) bool {
+				m := tokenRe.FindSubmatch(p)
+				if m == nil {
+					return false
+				}
+				k, _ := strconv.Atoi(string(m[2]))
+				return k%5 == 0
+			}
+		}
+		w, err := logs.NewMultipleWritersWithSource(ws...)
+		if err != nil {
+			return nil, err
+		}
+		lg := &logs.GenericLoggers{Output: log.New(w, "out: ", 0), Error: log.New(w, "err: ", 0)}
+		c := &c13Logger{name: "multiple-writers", lg: lg, faultyMember: faulty}
+		c.content = func() map[string]string {
+			out := map[string]string{}
+			for i, sk := range sinks {
+				out[fmt.Sprintf("member%d", i)] = sk.String()
+			}
+			return out
+		}
+		c.refusals = func() int {
+			if faulty < 0 {
+				return 0
+			}
+			sinks[faulty].mu.Lock()
+			defer sinks[faulty].mu.Unlock()
+			return sinks[faulty].refused
 		}
 		return c, nil
 	}
@@ -271,7 +340,7 @@ func runC12StoreProp(rc *RunCtx) {
 	runC12Store(rc)
 }
 
-const c13Kinds = 15 // 14 = asynchronous
+const c13Kinds = 16 // 14 = asynchronous, 15 = logger over the composite writer
 
 // raceLog returns the path of this process' race log (GORACE log_path=...), "" when unknown.
 func raceLog() string {
@@ -479,6 +548,13 @@ func runC13(rc *RunCtx) {
 		}
 		close(start)
 		wg.Wait()
+		if lg.other != nil {
+			// between two rounds the second composite gets a private member of its own
+			if priv, err := logs.NewPlainStringLogger(); err == nil {
+				_ = lg.other.Append(priv)
+				lg.otherPrivate = append(lg.otherPrivate, priv)
+			}
+		}
 	}
 	_ = lg.lg.Close
 	contents := lg.content()
@@ -534,6 +610,11 @@ func runC13(rc *RunCtx) {
 		for name, c := range contents {
 			checkSink(name, c, all)
 		}
+		for _, priv := range lg.otherPrivate {
+			if leak := tokenRe.FindString(priv.GetLogContent()); leak != "" {
+				viol("message-delivered-to-foreign-composite", fmt.Sprintf("a message logged through this composite (%s...) was delivered to the private member of another composite built from the same argument slice", leak[:min(len(leak), 14)]))
+			}
+		}
 		// members appended in round r must have every message of the rounds after r (and nothing is required of round r itself)
 		for i, a := range appendedList {
 			want := map[string]int{}
@@ -549,6 +630,25 @@ func runC13(rc *RunCtx) {
 					break
 				}
 			}
+		}
+	case lg.name == "multiple-writers":
+		for name, c := range contents {
+			want := all
+			if lg.faultyMember >= 0 && name == fmt.Sprintf("member%d", lg.faultyMember) {
+				want = map[string]int{}
+				for tok, n := range all {
+					if m := tokenRe.FindStringSubmatch(tok); m != nil {
+						if k, _ := strconv.Atoi(m[2]); k%5 == 0 {
+							continue
+						}
+					}
+					want[tok] = n
+				}
+			}
+			checkSink(name, c, want)
+		}
+		if lg.faultyMember >= 0 {
+			res.FaultN("sink-write-refused", lg.refusals())
 		}
 	default:
 		for name, c := range contents {
@@ -574,11 +674,12 @@ func runC13Async(rc *RunCtx) {
 		count int
 		err   bool
 		gap   time.Duration
+		par   int // producers logging this burst concurrently (each count messages)
 	}
 	nb := 1 + ch.Intn("bursts", 6)
 	bursts := make([]burst, nb)
 	for i := range bursts {
-		bursts[i] = burst{prod: ch.Intn("prod", nprod), count: 1 + ch.Intn("count", 40), err: ch.Intn("stream", 2) == 1, gap: []time.Duration{0, time.Millisecond, 30 * time.Millisecond, 200 * time.Millisecond}[ch.Intn("gap", 4)]}
+		bursts[i] = burst{prod: ch.Intn("prod", nprod), count: 1 + ch.Intn("count", 40), err: ch.Intn("stream", 2) == 1, gap: []time.Duration{0, time.Millisecond, 30 * time.Millisecond, 200 * time.Millisecond}[ch.Intn("gap", 4)], par: 1 + ch.Pick("par", 2, 1, 1, 1)}
 	}
 	// aligned: bursts start at the very instants at which the ring poller wakes up, so that producer and poller
 	// really run concurrently (hardware interleaving, E4 style); otherwise bursts land 1ns off every poll instant
@@ -603,22 +704,48 @@ func runC13Async(rc *RunCtx) {
 			time.Sleep(500*time.Microsecond + time.Nanosecond)
 		}
 		for _, b := range bursts {
+			// tokens are assigned up front; with par > 1 the producers of a burst really run concurrently
+			// (only interleaving-independent facts are judged afterwards)
+			toks := make([][]string, b.par)
 			for i := 0; i < b.count; i++ {
-				counter++
-				tok := c13Token(b.prod, counter)
-				order[b.prod] = append(order[b.prod], tok)
-				if b.err {
-					errOrder = append(errOrder, tok)
-				} else {
-					outOrder = append(outOrder, tok)
+				for p := 0; p < b.par; p++ {
+					counter++
+					tok := c13Token(b.prod+p, counter)
+					toks[p] = append(toks[p], tok)
+					order[b.prod+p] = append(order[b.prod+p], tok)
+					if b.err {
+						errOrder = append(errOrder, tok)
+						sentErr[tok]++
+					} else {
+						outOrder = append(outOrder, tok)
+						sentOut[tok]++
+					}
 				}
-				if b.err {
-					sentErr[tok]++
-					lg.LogError(tok)
-				} else {
-					sentOut[tok]++
-					lg.Log(tok)
+			}
+			send := func(list []string) {
+				for _, tok := range list {
+					if b.err {
+						lg.LogError(tok)
+					} else {
+						lg.Log(tok)
+					}
 				}
+			}
+			if b.par == 1 {
+				send(toks[0])
+			} else {
+				var wg sync.WaitGroup
+				start := make(chan struct{})
+				for p := 0; p < b.par; p++ {
+					wg.Add(1)
+					go func(list []string) {
+						defer wg.Done()
+						<-start
+						send(list)
+					}(toks[p])
+				}
+				close(start)
+				wg.Wait()
 			}
 			if b.gap > 0 {
 				time.Sleep(b.gap)
@@ -646,10 +773,18 @@ func runC13Async(rc *RunCtx) {
 	deliveredSet := map[string]bool{}
 	count := func(content string, want map[string]int, stream string) int {
 		delivered := 0
+		label := map[string]string{"output": "Output", "error": "Error"}[stream]
 		for _, line := range strings.Split(content, "\n") {
 			ms := tokenRe.FindAllStringSubmatch(line, -1)
 			if len(ms) > 1 {
 				viol("two-messages-in-one-line", fmt.Sprintf("%s sink: a line carries %d messages", stream, len(ms)))
+			}
+			// intact: the whole line is one header followed by one message
+			if len(ms) == 0 && strings.TrimSpace(line) != "" {
+				viol("fragment-of-a-message-delivered", fmt.Sprintf("%s sink: line %q carries no complete message", stream, truncate(line, 120)))
+			}
+			if len(ms) == 1 && !(strings.HasPrefix(line, "[sim] "+label+" (") && strings.HasSuffix(line, "): "+ms[0][0]) && strings.Count(line, "[sim]") == 1) {
+				viol("message-not-intact", fmt.Sprintf("%s sink: line %q is not one header followed by one message", stream, truncate(line, 160)))
 			}
 			for _, m := range ms {
 				p, _ := strconv.Atoi(m[1])
@@ -782,4 +917,11 @@ func runC12Store(rc *RunCtx) {
 	if n := store.Len(); n != len(registeredRound) {
 		res.Violate("cancel-store", "cancel-store|registration-lost", fmt.Sprintf("%s: %d functions were registered but the store holds %d", res.Config[:min(300, len(res.Config))], len(registeredRound), n))
 	}
+}
+
+func truncate(s string, n int) string {
+	if len(s) <= n {
+		return s
+	}
+	return s[:n] + "..."
 }
